@@ -200,13 +200,14 @@ class RepeatedNodeWrapper(MutableSequence[_M]):
             self._repeated.token_store.get_prev(self._repeated.items[0].first_token)
             if self._repeated.items else None)
         if r.step == 1:
-            self._del_tokens(r.start, r.stop)
+            stop = max(r.start, r.stop)  # a[4:2] = [x] inserts at 4: the replaced range is empty, not reversed
+            self._del_tokens(r.start, stop)
             self._insert_tokens(
                 r.start, values, len(self._repeated.items) - len(r), separators_before_last)
             self._repeated.items[indexes.slice_from_range(r)] = values
             for value in values:
                 value.reattach(self._repeated.token_store)
-            self._notify_splice(r.start, r.stop, values)
+            self._notify_splice(r.start, stop, values)
         else:
             if len(r) != len(values):
                 raise ValueError(f'attempt to assign sequence of size {len(values)} to extended slice of size {len(r)}')
